@@ -287,6 +287,95 @@ Definition put_spec_out (s : spec_out) : val :=
   | SRoute path own sel => VL [VI 0; VT path; vopt C01.put_dict own; C01.put_spec sel]
   end.
 
+(* ================================================================== histories: the process-wide _segment_cache *)
+(* traversal._segment_cache memoises quote_path_segment under the key (segment, safe).  In the
+   generator only the elements of a remainder SEQUENCE reach quote_path_segment without having been
+   stringified by the caller, so only there can two values that are equal as dictionary keys but
+   print differently (1 / True / 1.0 / Decimal('1.00')) meet one cache entry.  Whether the key is
+   the stringified segment (the str() conversion happens before the lookup) is a regenerated fact;
+   the functions below are parametric in it ([sf]).  Entries for other safe sets (literals: '/',
+   extra elements: PATH_SEGMENT_SAFE) never answer a lookup under PATH_SAFE and are left out. *)
+Definition scache := list (C17.pval * text).
+Fixpoint sc_find (c : scache) (k : C17.pval) : option text :=
+  match c with [] => None | (k', r) :: c' => if C17.py_eq k k' then Some r else sc_find c' k end.
+(* the key after [segment = str(segment)] *)
+Definition canon (v : C17.pval) : C17.pval :=
+  match v with C17.PInt z => C17.PStr (C17.show_Z z) | C17.PNum _ s => C17.PStr s | _ => v end.
+
+Definition qv_ck (sf : bool) (c : scache) (v : C17.pval) : C17.res text * scache :=
+  let k := if sf then canon v else v in
+  match sc_find c k with
+  | Some r => (C17.Ok r, c)
+  | None => match C17.q_value v with
+            | C17.Ok r => (C17.Ok r, c ++ [(k, r)])
+            | C17.Err e => (C17.Err e, c)          (* the exception leaves before the store *)
+            end
+  end.
+
+Fixpoint seq_ck (sf : bool) (c : scache) (l : list C17.pval) : C17.res (list text) * scache :=
+  match l with
+  | [] => (C17.Ok [], c)
+  | x :: r => match qv_ck sf c x with
+              | (C17.Ok q, c1) => match seq_ck sf c1 r with
+                                  | (C17.Ok qs, c2) => (C17.Ok (q :: qs), c2)
+                                  | (C17.Err e, c2) => (C17.Err e, c2)
+                                  end
+              | (C17.Err e, c1) => (C17.Err e, c1)
+              end
+  end.
+
+(* generator(): scalars are decoded / stringified by the generator itself before q() *)
+Definition gen_value_ck (sf : bool) (c : scache) (is_star : bool) (v : C17.kwval) : C17.res text * scache :=
+  match v with
+  | C17.KScalar x => match C17.text_of x with
+                     | C17.Ok t => qv_ck sf c (C17.PStr t)
+                     | C17.Err e => (C17.Err e, c)
+                     end
+  | C17.KSeq l shown =>
+      if is_star then match seq_ck sf c l with
+                      | (C17.Ok qs, c1) => (C17.Ok (join [47] qs), c1)
+                      | (C17.Err e, c1) => (C17.Err e, c1)
+                      end
+      else qv_ck sf c (C17.PStr shown)
+  end.
+
+Fixpoint newdict_ck (sf : bool) (c : scache) (g : C17.pattern) (kw : list (text * C17.kwval))
+  : C17.res (list (text * text)) * scache :=
+  match kw with
+  | [] => (C17.Ok [], c)
+  | kv :: r => match gen_value_ck sf c (C17.is_star_key g (fst kv)) (snd kv) with
+               | (C17.Ok q, c1) => match newdict_ck sf c1 g r with
+                                   | (C17.Ok d, c2) => (C17.Ok ((fst kv, q) :: d), c2)
+                                   | (C17.Err e, c2) => (C17.Err e, c2)
+                                   end
+               | (C17.Err e, c1) => (C17.Err e, c1)
+               end
+  end.
+
+Definition generate_ck (sf : bool) (c : scache) (g : C17.pattern) (kw : list (text * C17.kwval)) : C17.res text * scache :=
+  match C17.gen_template g with
+  | C17.Err e => (C17.Err e, c)
+  | C17.Ok tpl =>
+      match newdict_ck sf c g kw with
+      | (C17.Ok d, c1) => (C17.rbind (C17.mapM (C17.format_part d) tpl) (fun parts => C17.Ok (concat parts)), c1)
+      | (C17.Err e, c1) => (C17.Err e, c1)
+      end
+  end.
+
+(* the generator as it is in the current source *)
+Definition generate_c : scache -> C17.pattern -> list (text * C17.kwval) -> C17.res text * scache :=
+  generate_ck segment_key_stringified.
+
+(* a history of generations in one process, starting from an empty cache *)
+Fixpoint history_ck (sf : bool) (c : scache) (g : C17.pattern) (calls : list (list (text * C17.kwval))) : list (C17.res text) :=
+  match calls with
+  | [] => []
+  | kw :: r => let '(u, c1) := generate_ck sf c g kw in u :: history_ck sf c1 g r
+  end.
+
+Definition empty_env : C17.env := C17.mkEnv [104; 116; 116; 112] None [115] [56; 48] [].
+Definition no_overrides : C17.overrides := C17.mkOv None None None None None None.
+
 (* case   = [[wordchars; digitchars]; [[name; pattern] ...]; target; env; elements; overrides; kw]
             (env / overrides / elements / kw in C17's wire format)
    answer = [[statuses; route_url; route_path; way back of the url form]; spec] *)
@@ -310,5 +399,25 @@ Definition run_C06 (v : val) : val :=
         Some (VL [VL [VL (map C01.put_status sts); C17.put_res u; C17.put_res p;
                       route_back orc m tp (C17.e_script e) u];
                   put_spec_out (spec_route orc ds target e els ov kw)])
+    | VL [VI 1%Z; o; d; calls] =>
+        (* history of Route.generate calls in one process: [[status; [[path; own match] ...]]; [spec per call]] *)
+        olet orc := C01.get_oracle o in
+        olet d := get_decl2 d in
+        olet calls := get_list_of C17.get_kw calls in
+        let st := parse orc (snd d) in
+        match st with
+        | C01.Ok p =>
+            let us := history_ck segment_key_stringified [] (to_pattern p) calls in
+            Some (VL [VL [VI 0; VL (map (fun u : C17.res text =>
+                                           VL [C17.put_res u;
+                                               match u with
+                                               | C17.Ok t => vopt C01.put_dict (match_back orc p (unquote t))
+                                               | C17.Err _ => VL []
+                                               end]) us)];
+                      VL (map (fun kw => put_spec_out (spec_route orc [d] (fst d) empty_env [] no_overrides kw)) calls)])
+        | C01.CompileError => Some (VL [VL [VI 1; VL []]; VL []])
+        | C01.Unsupported => Some (VL [VL [VI 2; VL []]; VL []])
+        | C01.FactsDrift => Some (VL [VL [VI 3; VL []]; VL []])
+        end
     | _ => None
     end).
